@@ -5,6 +5,6 @@ cd /repo && git diff --quiet || { echo "/repo not clean"; exit 2; }
 git -C /repo apply /verif/seeded/$ID/patch.diff || exit 2
 cd /verif && ./vcheck $P --tier $T > /tmp/seedrun-$ID-$P.log 2>&1; rc=$?
 git -C /repo checkout -- .
-git -C /verif checkout -- evidence 2>/dev/null
-grep -E '^(VIOLATION|KNOWN|INFRA|C[0-9]+ )' /tmp/seedrun-$ID-$P.log | cut -c1-300 | head -8
+git -C /verif checkout -- evidence replay 2>/dev/null; git -C /verif clean -fdq replay
+grep -aE '^(VIOLATION|KNOWN|INFRA|C[0-9]+ )' /tmp/seedrun-$ID-$P.log | cut -c1-300 | head -8
 echo "exit=$rc"
